@@ -163,10 +163,12 @@ func (r *brun) body(tid int, th bthread) func() {
 				o := r.h.begin(tid, "succ", -1)
 				r.cb.OnSuccess()
 				r.h.end(o, "unit")
+				r.checkReport(o, "OnSuccess", "closes")
 			case "fail":
 				o := r.h.begin(tid, "fail", -1)
 				r.cb.OnFailure()
 				r.h.end(o, "unit")
+				r.checkReport(o, "OnFailure", "re-opens")
 			}
 		}
 	}
@@ -223,6 +225,25 @@ func (r *brun) checkCan(o *opRec, admitted bool, tid int, nepBefore int) {
 		if len(over) == 1 && over[0].kind != "C" && r.tk.nread[tid] >= 1 && r.tk.first[tid] >= over[0].deadline {
 			r.msg = fmt.Sprintf("C03 CanRequest rejected although its reading %d had passed the deadline %d and nobody else changed the state during the call", r.tk.first[tid], over[0].deadline)
 		}
+	}
+}
+
+// C03 monitor for one OnSuccess / OnFailure call (judged at its response): "one reported success closes the circuit, one reported
+// failure re-opens it for a full window". If the circuit was HALF_OPEN (one and the same half-open state) during the whole call and
+// nobody changed the state, the report was dropped. (Transitions are recorded by the listener in the slot of the CAS that made them,
+// so a CAS lost to another thread always shows as a second epoch.)
+func (r *brun) checkReport(o *opRec, name, effect string) {
+	if r.msg != "" {
+		return
+	}
+	var over []*epoch
+	for _, e := range r.epochs {
+		if e.start <= o.ret && (e.end == 0 || e.end >= o.inv) {
+			over = append(over, e)
+		}
+	}
+	if len(over) == 1 && over[0].kind == "H" {
+		r.msg = fmt.Sprintf("C03 %s returned without a transition although the circuit was HALF_OPEN during the whole call and nobody else changed the state (a report %s it; epochs %s)", name, effect, epochsStr(over))
 	}
 }
 
